@@ -151,4 +151,4 @@ def _post(cls_name):
     return post
 
 
-UNITS = [Unit("%s.__init__" % c, CTORS[c][0], ["C12", "C19", "C20", "C11", "C03", "C18"], _setup(c), _post(c), cfg=_cfg, self_cls=c) for c in CTORS]
+UNITS = [Unit("%s.__init__" % c, CTORS[c][0], ["C12", "C19", "C20", "C11", "C03", "C18"] + {"RetryExecutor": ["C05"], "PollExecutor": ["C08"], "ThrottleExecutor": ["C07"], "TimeoutExecutor": ["C09"]}[c], _setup(c), _post(c), cfg=_cfg, self_cls=c) for c in CTORS]
